@@ -25,6 +25,8 @@ func main() {
 		hookMain(args)
 	case "disp":
 		dispMain(args)
+	case "sys":
+		sysMain(args)
 	default:
 		fmt.Fprintln(os.Stderr, "unknown sub-command", cmd)
 		os.Exit(2)
